@@ -291,8 +291,22 @@ def main(argv):
             extra.append(kani.run(h, prop))
     if pc.get('dyn'):
         from . import dyn
+        lazy = False
+        if os.environ.get('VERIF_DYN_LAZY'):
+            # canary runs only need to know WHETHER the check alarms: when Verus already reports a violation of this property the
+            # bounded executions (a minute each for the git kinds) are skipped; the normal checks never set this
+            kn = load_known()
+            for r in results:
+                if r['status'] in ('ok', 'failed') and r['analysis']:
+                    for f in r['analysis']['failures']:
+                        if not f.is_rlimit and prop in f.props and not match_known(prop, r['unit'], f, kn):
+                            lazy = True
         for h in pc['dyn']:
-            extra.append(dyn.run(h, prop, tier))
+            if lazy:
+                extra.append({'engine': h['engine'], 'harness': h['engine'], 'bounded': True, 'skipped': 'VERIF_DYN_LAZY: Verus already reports a violation',
+                              'obligations': 0, 'discharged': 0, 'violations': [], 'undecided': []})
+            else:
+                extra.append(dyn.run(h, prop, tier))
     if tier == 'thorough':
         from . import thorough
         extra += thorough.run(prop, pc, results, seed)
@@ -341,6 +355,8 @@ def main(argv):
                 undecided.append('%s: resource limit in %s' % (r['unit'], f.function))
     bounded_run = bounded_passed = 0
     for e in extra:
+        if e.get('bounded') and e.get('skipped'):
+            continue
         if e.get('bounded'):
             # a bounded execution is never counted among the proof obligations
             bounded_run += 1
